@@ -236,11 +236,11 @@ Proof.
 Qed.
 
 (* for every segmentation into reads *)
-Lemma reader_doc segs d tail :
-  Forall nonempty segs -> concat segs = render_dec d tail -> doc_ok d tail = true ->
+Lemma reader_doc segs dt d tail :
+  runs_ok segs -> concat segs = render_dec d tail -> doc_ok d tail = true ->
   lenN (concat segs) < tok_limit ->
-  reader segs 0 = (render_plain d, Ok tt).
-Proof. intros Hne Hc Hd Hl. rewrite (reader_strip segs Hne Hl), Hc. now apply strip_doc. Qed.
+  reader_dt segs 0 dt = (render_plain d, Ok tt).
+Proof. intros Hne Hc Hd Hl. rewrite (reader_dt_strip segs dt Hne Hl), Hc. now apply strip_doc. Qed.
 
 (* a document without comments passes through byte for byte *)
 Definition no_comment (it : item) : bool := match it with Run _ | Str _ => true | _ => false end.
@@ -252,10 +252,10 @@ Proof.
   destruct it; try discriminate; reflexivity.
 Qed.
 
-Lemma reader_identity segs d :
-  Forall nonempty segs -> concat segs = render_dec d None -> forallb no_comment d = true -> doc_ok d None = true ->
+Lemma reader_identity segs dt d :
+  runs_ok segs -> concat segs = render_dec d None -> forallb no_comment d = true -> doc_ok d None = true ->
   lenN (concat segs) < tok_limit ->
-  reader segs 0 = (concat segs, Ok tt).
+  reader_dt segs 0 dt = (concat segs, Ok tt).
 Proof.
-  intros Hne Hc Hn Hd Hl. rewrite (reader_doc segs d None Hne Hc Hd Hl). now rewrite Hc, plain_no_comment.
+  intros Hne Hc Hn Hd Hl. rewrite (reader_doc segs dt d None Hne Hc Hd Hl). now rewrite Hc, plain_no_comment.
 Qed.
